@@ -68,6 +68,23 @@ def to_csv(form) -> str:
     return buf.getvalue()
 
 
+def xlsx_row(ws, r, values):
+    """write row r (1-based); strings stay strings (a leading '=' must not become a formula); None = empty cell"""
+    for c, v in enumerate(values, start=1):
+        if v is None:
+            continue
+        cell = ws.cell(row=r, column=c)
+        cell.value = v
+        if isinstance(v, str) and cell.data_type != "s":
+            cell.data_type = "s"
+
+
+def xlsx_append(ws, values):
+    n = getattr(ws, "_vf_rows", 0) + 1
+    ws._vf_rows = n
+    xlsx_row(ws, n, values)
+
+
 def to_xlsx(form, typed=None) -> bytes:
     """typed: optional {(sheet, row_index, col): python value} overriding the text cell with a typed one"""
     from openpyxl import Workbook
@@ -76,9 +93,9 @@ def to_xlsx(form, typed=None) -> bytes:
     wb.remove(wb.active)
     for name, head, rows in sheets_of(form):
         ws = wb.create_sheet(title=name[:31])
-        ws.append(list(head))
+        xlsx_append(ws, list(head))
         for i, r in enumerate(rows):
-            ws.append([_typed(typed, name, i, h, r.get(h)) for h in head])
+            xlsx_append(ws, [_typed(typed, name, i, h, r.get(h)) for h in head])
     buf = io.BytesIO()
     wb.save(buf)
     return buf.getvalue()
